@@ -30,7 +30,7 @@ MAIN = 'xdoctest.__main__.main'
 
 
 def run(ctx):
-    for fn in (r1_flags, r2_failed_list, r3_keys, r4_exit_status, r5_gathering):
+    for fn in (r1_flags, r2_failed_list, r3_keys, r4_exit_status, r5_gathering, r6_disable_marker_anchored):
         ctx.rep.rule(fn, ctx)
 
 
@@ -412,12 +412,58 @@ def r5_gathering(ctx):
 
 
 # ---------------------------------------------------------------------------
+def disable_marker_anchored(ctx, rule):
+    """force-disabling is decided by the FIRST line of the doctest only: the marker patterns are matched anchored at the
+    start of the doctest source (re.match, or an explicit \\A / ^ without MULTILINE); a search anywhere would silently
+    drop every doctest that merely mentions such a comment later on"""
+    from .. import consts
+    rep = ctx.rep
+    f = ctx.func('xdoctest.doctest_example.DocTest.is_disabled')
+    g = ctx.cfg(f)
+    rd = ctx.rd(f)
+    recv = f.node.args.args[0].arg
+    calls = [(n, c) for n in g.nodes if not n.dup for c in node_calls(n) if isinstance(c.func, ast.Attribute) and isinstance(c.func.value, ast.Name) and c.func.value.id == 're' and
+             c.func.attr in ('match', 'search', 'fullmatch', 'findall', 'finditer')]
+    rep.floor(rule, 'pattern applications in is_disabled', len(calls), 1)
+    for (n, c) in calls:
+        subj = c.args[1] if len(c.args) > 1 else None
+        on_src = subj is not None and isinstance(subj, ast.Attribute) and subj.attr == 'docsrc' and is_name(subj.value, recv)
+        anchored = c.func.attr == 'match'
+        if c.func.attr == 'search':
+            # every alternative must start with an explicit start anchor and MULTILINE must be off
+            pats = []
+            for d in rd.defs_of('disable_patterns'):
+                if isinstance(d.value, ast.List):
+                    pats += [e.value for e in d.value.elts if isinstance(e, ast.Constant)]
+            flags = next((k.value for k in c.keywords if k.arg == 'flags'), c.args[2] if len(c.args) > 2 else None)
+            multiline = flags is not None and 'M' in {x.attr for x in ast.walk(flags) if isinstance(x, ast.Attribute)} | {x.attr[:1] for x in ast.walk(flags) if isinstance(x, ast.Attribute) and x.attr == 'MULTILINE'}
+            anchored = bool(pats) and all(p.startswith(('\\A', '^')) for p in pats) and not multiline
+        rep.ob(rule, ctx.loc(f, c), ctx.src(c, 100), anchored and on_src,
+               'the markers are matched at the very start of the doctest source' if anchored and on_src else
+               ('the disable markers are searched anywhere in the doctest source: a doctest that only mentions `# SCRIPT`, `# FAILING`, ... in a later line is force-disabled, '
+                'i.e. never run by `all` and missing from the tallies' if on_src else 'the markers are not matched against the doctest source'), anchor=f.qualname)
+    # first alternatives start with the primary prompt
+    pats = []
+    for d in rd.defs_of('disable_patterns'):
+        v = d.value if isinstance(d.value, ast.List) else (d.value.value if isinstance(d.value, ast.AugAssign) and isinstance(d.value.value, ast.List) else None)
+        if v is not None:
+            pats += [e.value for e in v.elts if isinstance(e, ast.Constant) and isinstance(e.value, str)]
+    ok = bool(pats) and all(p.lstrip('\\A^').startswith('>>>') for p in pats)
+    rep.ob(rule, ctx.loc(f, f.node), 'every marker pattern starts with the prompt', ok, '%d pattern(s)' % len(pats), nontrivial=False, anchor=f.qualname)
+
+
+def r6_disable_marker_anchored(ctx):
+    disable_marker_anchored(ctx, 'C10.R6')
+
+
+# ---------------------------------------------------------------------------
 from ..selftest import fire, silent      # noqa: E402
 
 RN = 'xdoctest/runner.py'
 MA = 'xdoctest/__main__.py'
 DE = 'xdoctest/doctest_example.py'
 VARIANTS = [
+    fire('disable-marker-searched-anywhere', 'C10.R6', ('xdoctest/doctest_example.py', "        m = re.match(pattern, self.docsrc, flags=re.IGNORECASE)\n", "        m = re.search(pattern, self.docsrc, flags=re.IGNORECASE)\n")),
     fire('exit-status-is-the-count', 'C10.R4', ('xdoctest/__main__.py', "    if n_failed > 0:\n        return 1\n    else:\n        return 0\n", "    return n_failed\n")),
     silent('exit-status-capped', ('xdoctest/__main__.py', "    if n_failed > 0:\n        return 1\n    else:\n        return 0\n", "    return min(n_failed, 1)\n")),
     fire('failed-list-includes-skipped', 'C10.R2', (RN, "            if summary['skipped']:\n                pass\n", "            if False:\n                pass\n")),
